@@ -63,18 +63,19 @@ structure FbSpec where
   msg : MsgOutcome := .default
   deriving Repr
 
-/-- The instance after `__init__` (what later code reads). -/
+/-- The instance after `__init__`.  The `…I` components are INSTANCE attributes: `none` = not set on the
+    instance (attribute access falls through to the class, so a later `override()` is seen),
+    `some v` = set to `v` (which may be `None`).  Templates are only ever set from keywords. -/
 structure FbObj where
   id : Nat
   cls : String
   label : String
-  title : Option String
-  message : Option String
-  messageTemplate : Option Template
-  elseMessage : Option String
-  elseMessageTemplate : Option Template
-  justification : Option String
-  justificationTemplate : Option Template
+  titleI : Option (Option String)
+  messageI : Option (Option String)
+  messageTemplateI : Option Template
+  elseMessageI : Option (Option String)
+  elseMessageTemplateI : Option Template
+  justificationI : Option (Option String)
   unusedMessage : Option String
   fields : List (String × FVal)
   parent : Parent
@@ -127,6 +128,25 @@ def classNames (s : Store) (c a : String) : Option (List String) :=
 /-- The token standing for Python's `None` among field values. -/
 def noneTok : FVal := "None"
 
+/-- instance attribute if set, else the class attribute -/
+def instOr {α} (i : Option (Option α)) (cls : Option α) : Option α :=
+  match i with
+  | some v => v
+  | none => cls
+
+/-! attribute access on the instance (`self.message` …) against the class store as it is now -/
+def FbObj.title (s : Store) (o : FbObj) : Option String := instOr o.titleI (classStr s o.cls "title")
+def FbObj.message (s : Store) (o : FbObj) : Option String := instOr o.messageI (classStr s o.cls "message")
+def FbObj.elseMessage (s : Store) (o : FbObj) : Option String := instOr o.elseMessageI (classStr s o.cls "else_message")
+def FbObj.justification (s : Store) (o : FbObj) : Option String :=
+  instOr o.justificationI (classStr s o.cls "justification")
+def FbObj.messageTemplate (s : Store) (o : FbObj) : Option Template :=
+  o.messageTemplateI <|> classTmpl s o.cls "message_template"
+def FbObj.elseMessageTemplate (s : Store) (o : FbObj) : Option Template :=
+  o.elseMessageTemplateI <|> classTmpl s o.cls "else_message_template"
+def FbObj.justificationTemplate (s : Store) (o : FbObj) : Option Template :=
+  classTmpl s o.cls "justification_template"
+
 /-- `Feedback.__init__` up to (not including) the condition handling. -/
 def initObj (w : World) (sp : FbSpec) : FbObj :=
   let s := w.store
@@ -143,17 +163,16 @@ def initObj (w : World) (sp : FbSpec) : FbObj :=
   { id := w.nextId
     cls := c
     label := sp.label.getD c
-    title := match sp.title with
-      | some t => some t
+    titleI := match sp.title with
+      | some t => some (some t)
       | none => match classStr s c "title" with
-        | some t => some t
-        | none => sp.label
-    message := sp.message <|> classStr s c "message"
-    messageTemplate := sp.messageTemplate <|> classTmpl s c "message_template"
-    elseMessage := sp.elseMessage <|> classStr s c "else_message"
-    elseMessageTemplate := sp.elseMessageTemplate <|> classTmpl s c "else_message_template"
-    justification := sp.justification <|> classStr s c "justification"
-    justificationTemplate := classTmpl s c "justification_template"
+        | some _ => none
+        | none => some sp.label            -- `elif self.title is None: self.title = label`
+    messageI := sp.message.map some
+    messageTemplateI := sp.messageTemplate
+    elseMessageI := sp.elseMessage.map some
+    elseMessageTemplateI := sp.elseMessageTemplate
+    justificationI := sp.justification.map some
     unusedMessage := none
     fields := fields3
     parent := match sp.parent with
@@ -167,11 +186,12 @@ def initObj (w : World) (sp : FbSpec) : FbObj :=
     exc := none }
 
 /-- `_get_justification(met)` for string justifications / string templates. -/
-def getJustification (O : Oracle) (F : String) (avail : List String) (o : FbObj) (met : Bool) : Except Exc (Option String) :=
-  match o.justification with
+def getJustification (O : Oracle) (F : String) (avail : List String) (s : Store) (o : FbObj) (met : Bool) :
+    Except Exc (Option String) :=
+  match o.justification s with
   | some j => .ok (some (if met then j else unmetPrefix ++ j))
   | none =>
-    match o.justificationTemplate with
+    match o.justificationTemplate s with
     | some t =>
       match render O F avail o.fields (.lit unmetPrefix :: t) with
       | .ok r => .ok (some r)
@@ -179,11 +199,11 @@ def getJustification (O : Oracle) (F : String) (avail : List String) (o : FbObj)
     | none => .ok defaultJustification
 
 /-- `Feedback._get_message` (the default implementation). -/
-def defaultMessage (O : Oracle) (F : String) (avail : List String) (o : FbObj) : Except Exc (Option String) :=
-  match o.message with
+def defaultMessage (O : Oracle) (F : String) (avail : List String) (s : Store) (o : FbObj) : Except Exc (Option String) :=
+  match o.message s with
   | some m => .ok (some m)
   | none =>
-    match o.messageTemplate with
+    match o.messageTemplate s with
     | some t =>
       match render O F avail o.fields t with
       | .ok r => .ok (some r)
@@ -191,17 +211,17 @@ def defaultMessage (O : Oracle) (F : String) (avail : List String) (o : FbObj) :
     | none => .ok defaultFeedbackMessage
 
 /-- `self._get_message()` for this object's class. -/
-def getMessage (O : Oracle) (F : String) (avail : List String) (o : FbObj) : Except Exc (Option String) :=
+def getMessage (O : Oracle) (F : String) (avail : List String) (s : Store) (o : FbObj) : Except Exc (Option String) :=
   match o.msg with
-  | .default => defaultMessage O F avail o
+  | .default => defaultMessage O F avail s o
   | .returns m => .ok m
   | .raises e => .error e
 
-def getElseMessage (O : Oracle) (F : String) (avail : List String) (o : FbObj) : Except Exc (Option String) :=
-  match o.elseMessage with
+def getElseMessage (O : Oracle) (F : String) (avail : List String) (s : Store) (o : FbObj) : Except Exc (Option String) :=
+  match o.elseMessage s with
   | some m => .ok (some m)
   | none =>
-    match o.elseMessageTemplate with
+    match o.elseMessageTemplate s with
     | some t =>
       match render O F avail o.fields t with
       | .ok r => .ok (some r)
@@ -218,26 +238,26 @@ def evalCond (o : FbObj) : Except Exc Bool :=
 def failWith (o : FbObj) (e : Exc) : FbObj := { o with met := false, exc := some e, status := .error }
 
 /-- The `try:` block of `_handle_condition`, including what it has already assigned when it fails. -/
-def evalHandle (O : Oracle) (F : String) (avail : List String) (o : FbObj) : FbObj :=
+def evalHandle (O : Oracle) (F : String) (avail : List String) (s : Store) (o : FbObj) : FbObj :=
   let o := { o with exc := none }
   match evalCond o with
   | .error e => failWith o e
   | .ok met =>
     let o := { o with met := met }
-    match getJustification O F avail o met with
+    match getJustification O F avail s o met with
     | .error e => failWith o e
     | .ok j =>
-      let o := { o with justification := j }
+      let o := { o with justificationI := some j }
       if met then
-        match getMessage O F avail o with
+        match getMessage O F avail s o with
         | .error e => failWith o e
-        | .ok m => { o with message := m, status := .active }
+        | .ok m => { o with messageI := some m, status := .active }
       else
-        match getElseMessage O F avail o with
+        match getElseMessage O F avail s o with
         | .error e => failWith o e
         | .ok em =>
-          let o := { o with elseMessage := em, message := em }
-          let unused := match getMessage O F avail o with
+          let o := { o with elseMessageI := some em, messageI := some em }
+          let unused := match getMessage O F avail s o with
             | .ok m => m
             | .error _ => some ""
           { o with unusedMessage := unused, status := .inactive }
@@ -258,7 +278,7 @@ structure Answer where
 
 /-- `_handle_condition()` -/
 def handle (O : Oracle) (w : World) (o : FbObj) : World × Answer :=
-  let o' := evalHandle O w.fmtId w.avail o
+  let o' := evalHandle O w.fmtId w.avail w.store o
   (record w o', ⟨o', o'.exc⟩)
 
 /-- `SomeFeedbackClass(**keywords)` -/
